@@ -249,4 +249,106 @@ theorem tsum_perms (n L : Nat) (G : List Nat → α) :
 
 end semiring
 
+section semiring
+variable [CommSemiring α]
+
+/-- Tuple sum with one weight function per position. -/
+def wsum (n : Nat) : List (Nat → α) → (List Nat → α) → α
+  | [], F => F []
+  | w :: ws, F => ∑ a ∈ Finset.range n, w a * wsum n ws (fun t => F (a :: t))
+
+theorem wsum_congr (n : Nat) (W : List (Nat → α)) (F F' : List Nat → α)
+    (h : ∀ t, t.length = W.length → F t = F' t) : wsum n W F = wsum n W F' := by
+  induction W generalizing F F' with
+  | nil => exact h [] rfl
+  | cons w W ih =>
+    simp only [wsum]
+    apply Finset.sum_congr rfl
+    intro a _
+    rw [ih _ (fun t => F' (a :: t)) (fun t ht => h (a :: t) (by simp [ht]))]
+
+theorem wsum_zero (n : Nat) (W : List (Nat → α)) : wsum n W (fun _ => 0) = 0 := by
+  induction W with
+  | nil => rfl
+  | cons w W ih => simp [wsum, ih]
+
+theorem wsum_mul_left (n : Nat) (W : List (Nat → α)) (F : List Nat → α) (c : α) :
+    wsum n W (fun t => c * F t) = c * wsum n W F := by
+  induction W generalizing F with
+  | nil => rfl
+  | cons w W ih =>
+    simp only [wsum, ih, Finset.mul_sum]
+    apply Finset.sum_congr rfl; intro a _; ring
+
+/-- The weight `x[·]`. -/
+def xw [Zero α] (x : List α) : Nat → α := fun c => x.getD c 0
+
+/-- The weight that selects the index `k`. -/
+def delta [Zero α] [One α] (k : Nat) : Nat → α := fun a => if a = k then 1 else 0
+
+theorem wsum_replicate (n L : Nat) (x : List α) (G : List Nat → α) :
+    wsum n (List.replicate L (xw x)) G = tsum n L (fun u => G u * xprod x u) := by
+  induction L generalizing G with
+  | zero => simp [wsum, tsum, xprod]
+  | succ L ih =>
+    simp only [List.replicate_succ, wsum, tsum, ih]
+    apply Finset.sum_congr rfl
+    intro a _
+    rw [← tsum_mul_left]
+    apply tsum_congr
+    intro t _ _
+    simp only [xprod, List.map_cons, List.prod_cons, xw]
+    ring
+
+theorem sum_delta_mul (n k : Nat) (hk : k < n) (f : Nat → α) :
+    ∑ a ∈ Finset.range n, delta k a * f a = f k := by
+  rw [Finset.sum_eq_single k]
+  · simp [delta]
+  · intro b _ hb; simp [delta, hb]
+  · intro h; exact absurd (Finset.mem_range.2 hk) h
+
+/-- Fixing one entry to `k` at every position of every `L`-tuple: the same as giving one
+position the selecting weight. -/
+theorem tsum_insertAll_fixed (n L k : Nat) (hk : k < n) (x : List α) (F : List Nat → α) :
+    tsum n L (fun ρ => ((insertAll k ρ).map F).sum * xprod x ρ) =
+      ((insertAll (delta k) (List.replicate L (xw x))).map fun W => wsum n W F).sum := by
+  induction L generalizing F with
+  | zero => simp [tsum, insertAll, wsum, xprod, sum_delta_mul n k hk]
+  | succ L ih =>
+    simp only [List.replicate_succ, insertAll, List.map_cons, List.sum_cons, List.map_map]
+    have h1 : wsum n (delta k :: xw x :: List.replicate L (xw x)) F =
+        ∑ y ∈ Finset.range n, xw x y * tsum n L (fun ys => F (k :: y :: ys) * xprod x ys) := by
+      simp only [wsum]
+      rw [sum_delta_mul n k hk]
+      apply Finset.sum_congr rfl; intro y _
+      rw [wsum_replicate]
+    have h2 : ((insertAll (delta k) (List.replicate L (xw x))).map
+          ((fun W => wsum n W F) ∘ fun W => xw x :: W)).sum =
+        ∑ y ∈ Finset.range n, xw x y *
+          tsum n L (fun ys => ((insertAll k ys).map (fun τ => F (y :: τ))).sum * xprod x ys) := by
+      simp only [Function.comp_def, wsum]
+      have : ∀ y, tsum n L (fun ys => ((insertAll k ys).map (fun τ => F (y :: τ))).sum * xprod x ys) =
+          ((insertAll (delta k) (List.replicate L (xw x))).map fun W => wsum n W (fun τ => F (y :: τ))).sum :=
+        fun y => ih (fun τ => F (y :: τ))
+      simp only [this]
+      -- exchange the two finite sums
+      induction (insertAll (delta k) (List.replicate L (xw x))) with
+      | nil => simp
+      | cons W Ws ihW =>
+        simp only [List.map_cons, List.sum_cons, ihW]
+        rw [← Finset.sum_add_distrib]
+        apply Finset.sum_congr rfl; intro y _; ring
+    rw [h1, h2, ← Finset.sum_add_distrib]
+    simp only [tsum]
+    apply Finset.sum_congr rfl
+    intro y _
+    rw [← mul_add, ← tsum_add, ← tsum_mul_left]
+    apply tsum_congr
+    intro ys _ _
+    simp only [xprod, List.map_cons, List.prod_cons, List.map_map, Function.comp_def, xw, insertAll,
+      List.sum_cons]
+    ring
+
+end semiring
+
 end Pyttb
